@@ -118,7 +118,7 @@ def sort_dataframe_by_onsets(df):
         # Create a copy and sort by onsets as floats(if needed), but continue to keep the string version.
         df_copy = df.copy()
         df_copy['_temp_onset_sort'] = pd.to_numeric(df_copy['onset'], errors='coerce')
-        df_copy.sort_values(by='_temp_onset_sort', inplace=True)
+        df_copy.sort_values(by='_temp_onset_sort', kind='stable', inplace=True)
         df_copy.drop(columns=['_temp_onset_sort'], inplace=True)
 
         return df_copy
